@@ -40,6 +40,13 @@ def gen(rng, index, tier):
         else:
             sch = lib.gen_scheme(rng, family=rng.choice(["large", "large", "close", "close", "fine"]))
         case = {"dataset": raw, "scheme": sch, "config": config, "amo": rng.random() < 0.4, "meta": meta}
+    elif rng.random() < 0.12:
+        # PickAPerm's own minimum as reported score: repeated rankings, names containing the delimiters of the textual
+        # form (two different rankings may then print alike), all rankings requested two times out of three
+        raw, meta = lib.gen_dataset(rng, nmax=5, mmax=6, family=rng.choice(["complete", "dup", "dup"]),
+                                    kind=rng.choice(["str_delim", "str_delim", "int"]), nmin=3)
+        sch = common.family_scheme(rng, rng.choice(["unifying", "unifying", "induced", "pseudo", "grid"]))
+        case = {"dataset": raw, "scheme": sch, "config": ["pickaperm"], "amo": rng.random() < 0.33, "meta": meta}
     return case
 
 
